@@ -165,6 +165,13 @@ class Lib:
         raise Undecided('min/max')
 
     def b_range(self, I, *args):
+        def conc(a):
+            if isinstance(a, SV) and a.typ.kind == 'Int':
+                v = z3.simplify(a.t)
+                if z3.is_int_value(v):
+                    return v.as_long()
+            return a
+        args = tuple(conc(a) for a in args)
         if all(isinstance(a, int) for a in args):
             return list(range(*args))
         a = [x if isinstance(x, SV) else lift(x) for x in args]
@@ -443,6 +450,10 @@ class Lib:
         return isinstance(x, (SFunc, SPartial, SBound, SClass))
 
     def b_float(self, I, x=0.0):
+        if isinstance(x, SObj) and x.cls == 'Chrono':
+            t = I.fresh(NUM, 'elapsed')
+            I.path.assume(th.is_fin(t.t))
+            return t
         if isinstance(x, (int, float)):
             return float(x)
         if isinstance(x, SV) and x.typ.kind in ('Int', 'Num', 'Bool'):
@@ -1204,7 +1215,7 @@ class Lib:
         # `with self.lock:` / `with cond_var:` -- atomic-section markers; Chrono dropped
         if isinstance(cm_node, ast.Call) and isinstance(cm_node.func, ast.Name) and cm_node.func.id == 'Chrono':
             I.dropped.append(f'with Chrono() line {cm_node.lineno}')
-            return ('chrono', None)
+            return ('chrono', I.alloc('Chrono', {}))
         if isinstance(cm_node, ast.Call) and isinstance(cm_node.func, ast.Name) and cm_node.func.id == 'open':
             return self.world.open_file(I, cm_node, scope)
         v = I.eval(cm_node, scope)
